@@ -158,8 +158,9 @@ def gen_cases(rng, n, tier):
             script = '%s %s beq out %s %s beq out' % (A, B, A, A)
             expect = ['b|%d' % (1 if a == b else 0), 'b|1']
         elif op == 'cmp':
-            script = '%s %s bcmp out' % (A, B)
-            expect = ['o|' + ('E' if a == b else ('L' if a < b else 'G'))]
+            # partial_cmp and the four ordering operators (they may be implemented separately from partial_cmp)
+            script = '%s %s bcmp out %s %s blt out %s %s ble out %s %s bgt out %s %s bge out %s %s bne out' % (A, B, A, B, A, B, A, B, A, B, A, B)
+            expect = ['o|' + ('E' if a == b else ('L' if a < b else 'G'))] + ['b|%d' % (1 if x else 0) for x in (a < b, a <= b, a > b, a >= b, a != b)]
         else:
             script = '%s %s b%s dup %s %s beq out' % (A, B, op, 'out' if small else 'drop', N.limbs_tok(v))
             expect = ([N.exp_big(v)] if small else []) + ['b|1']
